@@ -116,6 +116,8 @@ pub struct Cfg {
     /// also explore reads after which the stream accepts a single byte of the pending output and
     /// the rest stays in the connection until after the next read
     pub write_shorts: bool,
+    /// short / failing writes are also explored on reads that carry descriptors
+    pub write_flags_with_fds: bool,
     /// descriptors handed to the connection get numbers that zigzag around 600 in arrival
     /// order (otherwise: lowest free number, so that a double close hits a recycled number)
     pub zigzag_fds: bool,
@@ -141,6 +143,7 @@ impl Cfg {
             answer_requests: false,
             write_faults: false,
             write_shorts: false,
+            write_flags_with_fds: false,
             zigzag_fds: false,
         }
     }
@@ -153,7 +156,7 @@ impl Cfg {
             "empty_reads": self.empty_reads, "eof": self.eof,
             "continue_after_error": self.continue_after_error,
             "max_fds_per_read": self.max_fds_per_read, "max_pending_fds": self.max_pending_fds,
-            "offer_when_queued_le": self.offer_when_queued_le, "judge_errors": self.judge_errors, "robust_only": self.robust_only, "allow_defer": self.allow_defer, "answer_requests": self.answer_requests, "write_faults": self.write_faults, "write_shorts": self.write_shorts, "zigzag_fds": self.zigzag_fds,
+            "offer_when_queued_le": self.offer_when_queued_le, "judge_errors": self.judge_errors, "robust_only": self.robust_only, "allow_defer": self.allow_defer, "answer_requests": self.answer_requests, "write_faults": self.write_faults, "write_shorts": self.write_shorts, "write_flags_with_fds": self.write_flags_with_fds, "zigzag_fds": self.zigzag_fds,
         })
     }
     pub fn from_json(v: &Value) -> Cfg {
@@ -192,6 +195,7 @@ impl Cfg {
             write_faults: v["write_faults"].as_bool().unwrap_or(false),
             zigzag_fds: v["zigzag_fds"].as_bool().unwrap_or(false),
             write_shorts: v["write_shorts"].as_bool().unwrap_or(false),
+            write_flags_with_fds: v["write_flags_with_fds"].as_bool().unwrap_or(false),
         }
     }
 }
@@ -1314,10 +1318,10 @@ impl<'a> Exec<'a> {
                 if self.cfg.allow_defer && self.defer_streak < 3 && self.acc_reqs.len() < 3 && self.acc_100.len() < 2 {
                     v.push(Act::Read(k as u16 | POP_ONE, f));
                 }
-                if self.cfg.write_shorts && f == 0 && self.defer_streak < 3 && self.acc_100.len() < 2 && self.c.owed_answers < 2 {
+                if self.cfg.write_shorts && (f == 0 || self.cfg.write_flags_with_fds) && self.defer_streak < 3 && self.acc_100.len() < 2 && self.c.owed_answers < 2 {
                     v.push(Act::Read(k as u16 | WSHORT, f));
                 }
-                if self.cfg.write_faults && f == 0 && !self.had_wfail {
+                if self.cfg.write_faults && (f == 0 || self.cfg.write_flags_with_fds) && !self.had_wfail {
                     v.push(Act::Read(k as u16 | WFAIL, f));
                 }
             }
